@@ -52,7 +52,14 @@ type Case struct {
 	Workers  [][]Tx `json:"workers"`
 	NewConns bool   `json:"new_conns"` // the handles keep no idle connection: every statement opens one
 	Tables   int    `json:"tables"`    // fresh tables per case (metadata loaded concurrently by the first users)
+	// Server, Compress: server profile and undo-log compressor of the process that ran the case (fixed per
+	// process; a replay adopts them). Repeat > 1: the workload is run that many times and judged by growth.
+	Server   string `json:"server,omitempty"`
+	Compress string `json:"compress,omitempty"`
+	Repeat   int    `json:"repeat,omitempty"`
 }
+
+var procServer, procCompress string
 
 type action struct {
 	mu                           sync.Mutex
@@ -110,6 +117,38 @@ func stableGoroutines() int {
 var last struct{ txs, conns, goroutines int }
 
 var cold = true // the first workload of the process
+
+// runWorkload runs a case once, or Repeat times: what a transaction loses (a connection, a goroutine) shows
+// as growth from run to run, however small against the slack of a single comparison.
+func runWorkload(c Case) *pt.Failure {
+	if c.Repeat <= 1 {
+		return runCase(c)
+	}
+	var conns, gor []int
+	for rep := 0; rep < c.Repeat; rep++ {
+		if fl := runCase(c); fl != nil {
+			return fl
+		}
+		conns, gor = append(conns, last.conns), append(gor, last.goroutines)
+	}
+	growing := func(v []int) bool {
+		for i := 1; i < len(v); i++ {
+			if v[i] <= v[i-1] {
+				return false
+			}
+		}
+		return true
+	}
+	if growing(conns) {
+		return pt.Failf("C20/connection-leak", "server connections after %d runs of the same workload (idle connections closed each time): %v", c.Repeat, conns)
+	}
+	if growing(gor) {
+		buf := make([]byte, 1<<20)
+		buf = buf[:runtime.Stack(buf, true)]
+		return pt.Failf("C20/goroutine-leak", "goroutines after %d runs of the same workload: %v\n%s", c.Repeat, gor, trimStacks(string(buf)))
+	}
+	return nil
+}
 
 func runCase(c Case) *pt.Failure {
 	return pt.Guard("C20/crash", func() *pt.Failure {
@@ -337,6 +376,9 @@ func TestMain(m *testing.M) {
 	if sh := os.Getenv("VERIF_SHARD"); sh != "" && (sh[len(sh)-1]-'0')%2 == 1 {
 		version = "5.7.30" // XA connections are held for phase two on this profile
 	}
+	if v := pt.ReplayCaseString("server"); v != "" {
+		version = v
+	}
 	if v := os.Getenv("C20_VERSION"); v != "" {
 		version = v
 	}
@@ -347,6 +389,11 @@ func TestMain(m *testing.M) {
 	if v := os.Getenv("VERIF_SHARD"); v != "" {
 		compress = []string{"None", "Gzip", "Zstd", "Deflate", "Lz4", "Bzip2", "Zip"}[int(v[len(v)-1]-'0')%7]
 	}
+	if v := pt.ReplayCaseString("compress"); v != "" {
+		compress = v
+	}
+	procServer, procCompress = version, compress
+	ctx.ProcessFields = map[string]string{"server": version, "compress": compress}
 	atenv.UndoConfig("json", compress, true, true)
 	var err error
 	tccOnce.Do(func() { tccProxy, err = tcc.NewTCCServiceProxy(tccAct) })
@@ -394,21 +441,8 @@ func TestPropConcurrentWorkload(t *testing.T) {
 			w.Workers = append(w.Workers, []Tx{{Kind: k, Via: []string{"db", "conn"}[i%2], Rows: []int{1 + i}, Decision: []string{"rollback", "commit"}[i%2], FailStmt: i != 4},
 				{Kind: k, Via: "db", Rows: []int{8 - i}, Decision: "commit"}})
 		}
-		// run three times: what a transaction loses (a connection, a goroutine) shows as growth from run to run,
-		// however small against the slack of a single comparison
-		var conns, gor []int
-		for rep := 0; rep < 3 && fl == nil; rep++ {
-			fl = runCase(w)
-			conns, gor = append(conns, last.conns), append(gor, last.goroutines)
-		}
-		if fl == nil && conns[2] > conns[1] && conns[1] > conns[0] {
-			fl = pt.Failf("C20/connection-leak", "server connections after three runs of the same workload (idle connections closed each time): %v", conns)
-		}
-		if fl == nil && gor[2] > gor[1] && gor[1] > gor[0] {
-			buf := make([]byte, 1<<20)
-			buf = buf[:runtime.Stack(buf, true)]
-			fl = pt.Failf("C20/goroutine-leak", "goroutines after three runs of the same workload: %v\n%s", gor, trimStacks(string(buf)))
-		}
+		w.Repeat, w.Server, w.Compress = 3, procServer, procCompress
+		fl = runWorkload(w)
 		ctx.Rec.Case("workload", true, "fixed-failing-branches", w, "fixed-failing-branches")
 		ctx.Judge(t, "workload", fl, w)
 	}
@@ -436,6 +470,7 @@ func TestPropConcurrentWorkload(t *testing.T) {
 			c.Workers = append(c.Workers, txs)
 		}
 		sort.Strings(shape)
+		c.Server, c.Compress = procServer, procCompress
 		fl := runCase(c)
 		ctx.Rec.Case("workload", last.txs >= 4 && nw >= 2, strings.Join(shape, ","), c, fmt.Sprintf("workers:%d", nw), fmt.Sprintf("newConns:%v", c.NewConns))
 		ctx.Judge(rt, "workload", fl, c)
@@ -720,7 +755,7 @@ func TestPropReplaySaved(t *testing.T) {
 		if err := json.Unmarshal(v.Case, &c); err != nil {
 			return pt.Failf("C20/replay", "bad case: %v", err)
 		}
-		return runCase(c)
+		return runWorkload(c)
 	})
 }
 
@@ -752,7 +787,7 @@ func TestReplay(t *testing.T) {
 		ctx.Judge(t, v.Test, fl, sc)
 		return
 	}
-	fl := runCase(c)
+	fl := runWorkload(c)
 	ctx.Rec.Case("replay", true, string(v.Case), c)
 	ctx.Judge(t, v.Test, fl, c)
 }
